@@ -4,6 +4,7 @@ equality), C04 (EOF/TIMEOUT outcomes) and parts of C05.
 
 A scenario is explicit JSON; run() draws nothing.
 """
+import os
 import re
 
 import pexpect
@@ -163,6 +164,8 @@ def generate(rng, profile='engine'):
         scn['delayafterread'] = rng.choice([None, 0.001])
     zero_ok = rng.random() < 0.25
     n = rng.choice([0, 1, 3, 6, 10, 20, 30, 60]) if rng.random() < 0.9 else rng.randint(60, 400)
+    if os.environ.get('SIMPEX_TIER') == 'thorough' and rng.random() < 0.3:
+        n = rng.randint(100, 1500)
     text = gen_text(rng, n, uni)
     data = text.encode('utf-8') if uni else text.encode('latin-1')
     pieces = cut(rng, data, rng.choice([1, 2, 4, 8, 16]))
@@ -170,7 +173,10 @@ def generate(rng, profile='engine'):
         # keep boundaries on character boundaries only sometimes; C07 owns torn characters
         pass
     peer = []
+    deep = os.environ.get('SIMPEX_TIER') == 'thorough'
     nops = rng.randint(1, 12) if profile != 'eof' else rng.randint(2, 9)
+    if deep and rng.random() < 0.5:
+        nops = rng.randint(8, 30)
     for p in pieces:
         st = {'op': 'w', 'd': harness.l1(p)}
         if rng.random() < 0.12:
